@@ -330,7 +330,7 @@ def make_ops(kind, sig, rng, k):
             cands.append(("oneof", lambda pr, o=rng.choice(objs): pr.add_oneof_initial_constraint([fexp(pr, pN, o), fexp(pr, qN)])))
             cands.append(("unknown", lambda pr, o=rng.choice(objs): pr.add_unknown_initial_constraint(fexp(pr, pN, o))))
         if kind == "htn":
-            cands.append(("tn.add_subtask", lambda pr: pr.task_network.add_subtask(pr.action("b"))))
+            cands.append(("tn.add_subtask", lambda pr, i=rng.randint(0, 99): pr.task_network.add_subtask(pr.action("b"), ident=f"st{i}")))
             cands.append(("add_task", lambda pr, i=rng.randint(0, 1): pr.add_task(f"t{i}", z=T)))
     elif kind == "ma":
         T, objs = sig["T"], sig["objs"]
@@ -429,6 +429,10 @@ def scenario(kind, seed, nops, failures):
             return len(ops)
     # I: independence (fresh clone; edit one side only)
     c2 = pr.clone()
+    n2 = len(failures)
+    check_pair(pr, c2, "clone taken after a history of edits", dict(detail, ops=labels), failures, what_prefix="history: ")
+    if len(failures) > n2:
+        return len(ops)
     side = rng.random() < 0.5
     edited, other = (pr, c2) if side else (c2, pr)
     snap = snapshot(other)
